@@ -7,7 +7,7 @@
     [Ok x] / [Reject] / [Oob] (the C++ reads past the input) / [Unmod] (outside the modelled dialect). *)
 From Coq Require Import List ZArith Bool Arith.
 From Draco Require Import Base.Codec Model.Varint Model.Dedup Model.ObjPlyStl
-  Proofs.IoText_proofs Proofs.ObjPlyStl_proofs.
+  Proofs.Dedup_proofs Proofs.IoText_proofs Proofs.ObjPlyStl_proofs Proofs.PlyRoundtrip_proofs Proofs.ObjRoundtrip_proofs.
 Import ListNotations.
 Local Open Scope Z_scope.
 
@@ -32,47 +32,156 @@ Proof. exact stl_roundtrip. Qed.
 Print Assumptions C15_stl_roundtrip_exact.
 
 (* ------------------------------------------------------------------------------------------- PLY *)
-(** FULL STATEMENT (ply_roundtrip_exact), NOT PROVED AS ONE THEOREM:
-      for every [m : ply_in] with 3 x float32 positions, optional 3 x float32 normals, optional 1..4 x uint8 colours,
-      optional 2 x float32 texture coordinates, fewer than 2^31 points and faces, all face corners < number of points:
-      exists bs, ply_write m = Some bs /\ forall rest,
-        ply_decode_raw true (bs ++ rest) = Ok (mkGeo np [per-point position; normal; colour bytes, identity maps] faces)
-        /\ ply_decode_raw false (bs ++ rest) = Ok (the same without faces)
-      and hence (C14_dedup_*_preserves) geom (ply_decode true bs) = geom of the input, pc_geom for point clouds.
-    It is checked by computation on the examples below and tied byte for byte / field for field to the
-    implementation by the correspondence; what IS proved, for unbounded inputs, are its three generic layers: *)
+(** Vocabulary (Proofs/PlyRoundtrip_proofs.v).
+    [ply_ok m] = what PlyEncoder must be given so that the file it writes is a PLY file whose header describes its
+    data (the writer itself checks only the face corners):
+      fewer than 2^31 points; positions FLOAT32 or INT32 with 12-byte values; if a 3-component NORMAL attribute is
+      present (others are not written): FLOAT32, 12-byte values; if a COLOR attribute is present: UINT8 with 1..4
+      components; if written through the Mesh entry: fewer than 2^31 faces, every corner < number of points, and a
+      2-component TEX_COORD attribute (others are not written), if present, of a type the header can name (float / uchar /
+      int) with values of 2 components.  Values may be ANY bytes (every float bit pattern; 0x0A / 0x0D anywhere,
+      also as the first byte after "end_header\n").
+    [ply_read_atts m] = POSITION, then NORMAL / COLOR if written: one value per point, identity map, value p = the
+      bytes point p carries in the input.  [ply_in_atts m] = those attributes of the input itself.
+    TEXTURE COORDINATES ARE NOT PART OF WHAT COMES BACK: the writer stores them per face corner in a "texcoord" list
+    property and PlyDecoder never reads it (the reader skips over it correctly: that IS part of the theorems). *)
 
+(** PlyReader::Read on PlyEncoder's output: header understood as written (elements, properties, counts), every row
+    of the vertex and face elements read back cell by cell, exactly the file consumed whatever follows it *)
+Theorem C15_ply_reader_written : forall m, ply_ok m ->
+  exists bs, ply_write m = Some bs /\ forall rest, ply_reader (bs ++ rest) = Ok (ply_tables m, rest).
+Proof. exact ply_reader_written. Qed.
+Print Assumptions C15_ply_reader_written.
+
+(** PlyDecoder before its final deduplication: exactly the per-point attribute bytes of the input, in point order, and
+    exactly the faces of the input, in order; read as a point cloud: the same without faces *)
+Theorem C15_ply_decoder_tables_exact : forall m, ply_ok m ->
+  exists bs, ply_write m = Some bs /\ forall rest,
+    ply_decode_raw true (bs ++ rest) = Ok (mkGeo (pi_np m) (ply_read_atts m) (in_faces m)) /\
+    ply_decode_raw false (bs ++ rest) = Ok (mkGeo (pi_np m) (ply_read_atts m) []).
+Proof. exact ply_raw_roundtrip. Qed.
+Print Assumptions C15_ply_decoder_tables_exact.
+
+(** THE ROUND TRIP, decoder as called.  For every m with [ply_ok m] the encoder succeeds and, whatever follows the
+    file (the format is self-delimiting through its counts):
+    - read as a point cloud: point p carries bit for bit the position / normal / colour of input point p; no faces;
+    - read as a mesh: same number of faces, same order, corner c of face f carries bit for bit the attribute values of
+      corner c of input face f; the result is well formed; without faces it is the point-cloud result; with faces
+      (DeduplicateAttributeValues + DeduplicatePointIds ran: C14) no two points have the same value indices, and a
+      map [im] sends every input point to a result point with the same bytes, onto all result points, and the faces
+      are the input faces renamed by [im]. *)
+Theorem C15_ply_roundtrip_exact : forall m, ply_ok m ->
+  exists bs, ply_write m = Some bs /\ forall rest,
+    ply_decode false (bs ++ rest) = Ok (mkGeo (pi_np m) (ply_read_atts m) []) /\
+    pc_geom (mkGeo (pi_np m) (ply_read_atts m) []) = map (point_tuple (ply_in_atts m)) (seq 0 (pi_np m)) /\
+    exists g, ply_decode true (bs ++ rest) = Ok g /\
+      geom g = geom (mkGeo (pi_np m) (ply_in_atts m) (in_faces m)) /\
+      wf_geo g = true /\
+      (in_faces m = [] -> g = mkGeo (pi_np m) (ply_read_atts m) []) /\
+      (in_faces m <> [] ->
+         NoDup (map (pkey (g_atts g)) (seq 0 (g_np g))) /\
+         exists im, length im = pi_np m /\
+           g_faces g = map (remap_face im) (in_faces m) /\
+           (forall p, (p < pi_np m)%nat -> (nth p im invalid_index < g_np g)%nat /\
+                      point_tuple (g_atts g) (nth p im invalid_index) = point_tuple (ply_in_atts m) p) /\
+           (forall q, (q < g_np g)%nat -> exists p, (p < pi_np m)%nat /\ nth p im invalid_index = q)).
+Proof. exact ply_roundtrip. Qed.
+Print Assumptions C15_ply_roundtrip_exact.
+
+(** DecodeVertexData on any table laid out as the writer declares it (20 layouts: float/int positions x normals or
+    not x 0..4 colour components): the attributes are exactly the selected columns, re-assembled per entry *)
+Theorem C15_ply_vertex_table : forall dt hasn nc nm rows,
+  (dt = DT_FLOAT32 \/ dt = DT_INT32) -> 0 <= nc <= 4 ->
+  Forall (Forall2 scalar_cell (vprops_of dt hasn nc)) rows -> Z.of_nat (length rows) < 2 ^ 31 ->
+  decode_vertices (mkElem nm (Z.of_nat (length rows)) (vprops_of dt hasn nc)) (map (map CS) rows) =
+  Ok (length rows, vertex_atts dt hasn nc rows).
+Proof. exact decode_vertices_table. Qed.
+Print Assumptions C15_ply_vertex_table.
+
+(** DecodeFaceData on the writer's face records (uchar count 3, three int32 indices, optionally the texcoord list) *)
+Theorem C15_ply_face_table : forall m nm cnt fs,
+  forallb (face_ok (pi_np m)) fs = true -> Z.of_nat (pi_np m) < 2 ^ 31 ->
+  decode_faces (mkElem nm cnt (fprops_of (tex_dt m))) (map (frow m) fs) = Ok (map zface fs).
+Proof. exact decode_faces_written. Qed.
+Print Assumptions C15_ply_face_table.
+
+(** the generic layers the composition rests on (each for unbounded inputs): *)
 (** the header loop: for ANY list of well-formed header lines (any number of elements / properties, any
     counts) the reader's loop performs exactly one [header_step] per line and stops exactly behind
     "end_header\n", whatever byte the binary data starts with; it never runs out of fuel *)
-Theorem C15_ply_header_loop_partial : forall ls fuel es rest,
+Theorem C15_ply_header_loop : forall ls fuel es rest,
   Forall goodline ls -> (length ls < fuel)%nat ->
   parse_header fuel es (render_lines ls ++ s_end_header ++ 10 :: rest) =
   match header_fold es ls with Some es' => Ok (es', rest) | None => Reject end.
 Proof. exact parse_header_lines. Qed.
-Print Assumptions C15_ply_header_loop_partial.
+Print Assumptions C15_ply_header_loop.
 
 (** element data: any number of rows of any scalar properties are read back cell by cell, consuming exactly
     the rows (no byte of what follows), never out of bounds *)
-Theorem C15_ply_rows_partial : forall ps rows rest, Forall (Forall2 scalar_cell ps) rows ->
+Theorem C15_ply_rows : forall ps rows rest, Forall (Forall2 scalar_cell ps) rows ->
   read_rows (length rows) ps (concat (map (@concat Z) rows) ++ rest) = Ok (map (map CS) rows, rest).
 Proof. exact read_rows_scalars. Qed.
-Print Assumptions C15_ply_rows_partial.
+Print Assumptions C15_ply_rows.
 
 (** PlyPropertyReader::ReadValue(i) returns entry i of the property bit for bit and stays inside its data *)
-Theorem C15_ply_read_value_partial : forall cells sz i,
+Theorem C15_ply_read_value : forall cells sz i,
   Forall (fun c => Z.of_nat (length c) = sz) cells -> 0 < sz -> (i < length cells)%nat ->
   read_at (concat cells) sz (Z.of_nat i) = Some (nth i cells []).
 Proof. exact read_at_uniform. Qed.
-Print Assumptions C15_ply_read_value_partial.
+Print Assumptions C15_ply_read_value.
 
 (* ------------------------------------------------------------------------------------------- OBJ *)
-(** FULL STATEMENT (obj_structure_roundtrip), NOT PROVED AS ONE THEOREM: for every mesh with float32 positions and
-    optional 2-component tex-coords / normals, for every number oracle (fmt, parse) and relation [close] with
-    [forall x, exists y, parse (fmt x) = Some y /\ close x y]:  obj_decode parse true (obj_write fmt m) = Ok g with the same
-    number of faces and, for face i corner c, attribute values componentwise [close] to the input's (same i, same c),
-    corners that shared a value record still sharing one.  Checked by computation (example below, oracle = identity),
-    tied to the implementation token for token, searched end to end; proved for unbounded inputs: the index triplets. *)
+(** Vocabulary (Proofs/ObjRoundtrip_proofs.v).  The model reads and writes the file as a list of tokenised lines
+    ([oline]: record kind + its blank-separated tokens; the corner tokens of "f" lines are byte strings parsed by the
+    model).  The NUMBER TEXT is an oracle: [fmt x] = the token snprintf("%F") prints for the float with bytes x,
+    [parse t] = what parser::ParseFloat reads from token t; the theorems are universally quantified over them and over
+    [rt] with the explicit hypothesis  forall x in obj_numbers m, parse (fmt x) = Some (rt x)   (every number the
+    writer prints is read back to [rt x]; libc formatting is outside the model).
+    [obj_ok m fs] = the mesh features inside the theorem: written through the Mesh entry with faces fs <> [];
+      POSITION and the optional TEX_COORD / NORMAL attributes are FLOAT32, structurally valid (wf_attr: any explicit or
+      identity point -> value map) with fewer than 2^31 values; face corners < number of points.  NOT inside: point
+      clouds (known finding), materials / "usemtl" / "mtllib", sub-objects "o", "added_edges" polygon reconstruction,
+      metadata, non-float attributes; the byte-level lexing of lines (the harness tokenises).
+    [rtv k v] = value v after printing and parsing each of its k numbers (missing components print as 0.0: ConvertValue);
+    [obj_raw m fs] = value tables in record order + per attribute the corner -> value map of the input (one point per
+    face corner); [oface m f] = the three corner tuples (position, tex-coord, normal) of input face f, each number
+    through [rtv]. *)
+
+(** BOTH PASSES of ObjDecoder on ObjEncoder's lines, before the final deduplication.  The counting pass finds the
+    numbers of v / vt / vn records and of triangles the writer wrote; the parse pass rebuilds every value table in
+    record order and, for every face corner, the index triplet "p", "p/t", "p//n" or "p/t/n" resolves to the value
+    indices the corner had in the input: the INDEX STRUCTURE (which corners share a position / tex-coord / normal
+    record: seams) is reproduced exactly. *)
+Theorem C15_obj_decoder_tables_exact : forall fmt parse rt m fs, obj_ok m fs ->
+  (forall x, In x (obj_numbers m) -> parse (fmt x) = Some (rt x)) ->
+  exists ls, obj_write fmt m = Some ls /\ forall mesh, obj_decode_raw parse mesh ls = Ok (obj_raw rt m fs mesh).
+Proof. exact obj_raw_roundtrip. Qed.
+Print Assumptions C15_obj_decoder_tables_exact.
+
+(** THE STRUCTURE ROUND TRIP, decoder as called (DeduplicateAttributeValues + DeduplicatePointIds: C14): same number
+    of faces, same order, corner c of face f carries the (printed and parsed) position / tex-coord / normal of
+    corner c of input face f; well formed; no two points with the same value indices *)
+Theorem C15_obj_structure_roundtrip : forall fmt parse rt m fs, obj_ok m fs ->
+  (forall x, In x (obj_numbers m) -> parse (fmt x) = Some (rt x)) ->
+  exists ls, obj_write fmt m = Some ls /\
+    obj_decode_raw parse true ls = Ok (obj_raw rt m fs true) /\
+    exists g, obj_decode parse true ls = Ok g /\
+      geom g = map (oface rt m) fs /\ length (g_faces g) = length fs /\
+      wf_geo g = true /\ NoDup (map (pkey (g_atts g)) (seq 0 (g_np g))).
+Proof. exact obj_roundtrip. Qed.
+Print Assumptions C15_obj_structure_roundtrip.
+
+(** with the oracle "parse (print x) = x" (and values of 3 / 2 / 3 floats) the decoded mesh describes exactly the
+    input mesh, bit for bit *)
+Theorem C15_obj_roundtrip_exact_numbers : forall fmt parse m fs, obj_ok m fs -> obj_sized m ->
+  (forall x, In x (obj_numbers m) -> parse (fmt x) = Some x) ->
+  exists ls, obj_write fmt m = Some ls /\
+    exists g, obj_decode parse true ls = Ok g /\
+      geom g = geom (mkGeo (oi_np m) (obj_in_atts m) fs) /\ length (g_faces g) = length fs /\
+      wf_geo g = true /\ NoDup (map (pkey (g_atts g)) (seq 0 (g_np g))).
+Proof. exact obj_roundtrip_exact. Qed.
+Print Assumptions C15_obj_roundtrip_exact_numbers.
+
 (** index bookkeeping of the "f" records: the triplet text EncodeFaceCorner writes ("p", "p/t", "p//n", "p/t/n",
     1-based decimal) is parsed back by ParseVertexIndices to exactly those indices, the token is consumed
     completely, and MapPointToVertexIndices maps it to the 0-based value index it was written from. *)
@@ -174,3 +283,57 @@ Example C15_example_corner :
   corner_text 11 (Some 4%nat) None = [49; 50; 47; 53] /\ corner_text 0 None (Some 99%nat) = [49; 47; 47; 49; 48; 48] /\
   parse_corner [45; 50; 47; 47; 45; 49] = Some (-2, 0, -1, []) /\ resolve_index (-2) 5 9 false = Some 3%nat.
 Proof. vm_compute. repeat split; reflexivity. Qed.
+
+(** the hypotheses of the composed theorems are satisfiable: the mesh of the examples above (shared points, explicit
+    maps, normals, colours, texture coordinates) and a point cloud whose data starts with 0x0D 0x0A right behind
+    "end_header\n" *)
+Ltac c15_vals4 := intros p Hp; do 4 (destruct p as [|p]; [reflexivity|]); exfalso; lia.
+Ltac c15_vals2 := intros p Hp; do 2 (destruct p as [|p]; [reflexivity|]); exfalso; lia.
+Example C15_example_ply_ok :
+  ply_ok (mkPlyIn 4 ex_pos (Some ex_nrm) (Some ex_col) (Some ex_tex) (Some ex_faces)) /\
+  in_faces (mkPlyIn 4 ex_pos (Some ex_nrm) (Some ex_col) (Some ex_tex) (Some ex_faces)) <> [].
+Proof.
+  split; [|discriminate]. unfold ply_ok. cbn [pi_np pi_pos pi_col pi_faces].
+  split; [reflexivity|]. split; [left; reflexivity|]. split; [c15_vals4|].
+  split; [intros a E; injection E as <-; split; [reflexivity|c15_vals4]|].
+  split; [intros a E; injection E as <-; split; [reflexivity|split; [cbn; lia|c15_vals4]]|].
+  intros fs E. injection E as <-. split; [reflexivity|]. split; [reflexivity|].
+  intros t E. injection E as <-. split; [eexists; reflexivity|c15_vals4].
+Qed.
+
+Definition ex_nasty : ply_in :=
+  mkPlyIn 2 (mkAttr 3 DT_FLOAT32 [[13; 10; 13; 10; 10; 13; 0; 255; 10; 10; 13; 13]; [10; 10; 10; 10; 13; 13; 13; 13; 0; 0; 128; 127]] true [])
+          None (Some (mkAttr 1 DT_UINT8 [[10]; [13]] true [])) None None.
+Example C15_example_ply_nasty :
+  ply_ok ex_nasty /\
+  match ply_write ex_nasty with
+  | Some bs => firstn 13 (skipn (length bs - 26 - 11) bs) = [101; 110; 100; 95; 104; 101; 97; 100; 101; 114; 10; 13; 10] /\
+               ply_decode false (bs ++ [13; 10]) = Ok (mkGeo 2 (ply_read_atts ex_nasty) []) /\
+               ply_decode true (bs ++ [10]) = Ok (mkGeo 2 (ply_read_atts ex_nasty) [])
+  | None => False
+  end.
+Proof.
+  split.
+  - unfold ply_ok, ex_nasty. cbn [pi_np pi_pos pi_col pi_faces].
+    split; [reflexivity|]. split; [left; reflexivity|]. split; [c15_vals2|].
+    split; [intros a E; discriminate|].
+    split; [intros a E; injection E as <-; split; [reflexivity|split; [cbn; lia|c15_vals2]]|].
+    intros fs E. discriminate.
+  - vm_compute. repeat split; reflexivity.
+Qed.
+
+Definition ex_obj : obj_in := mkObjIn 4 ex_pos (Some ex_tex) (Some ex_nrm) (Some ex_faces).
+Example C15_example_obj_ok :
+  obj_ok ex_obj ex_faces /\ obj_sized ex_obj /\
+  (forall x, In x (obj_numbers ex_obj) -> (fun t => Some t) ((fun b : bytes => b) x) = Some x) /\
+  length (obj_numbers ex_obj) = 19%nat.
+Proof.
+  split; [|split; [|split; [intros; reflexivity|reflexivity]]].
+  - unfold obj_ok, ex_obj. cbn [oi_np oi_pos oi_tex oi_nrm oi_faces].
+    split; [reflexivity|]. split; [discriminate|]. split; [reflexivity|].
+    split; [split; [reflexivity|cbn; lia]|].
+    split; [intros a E; injection E as <-; split; [reflexivity|cbn; lia]|].
+    split; [intros a E; injection E as <-; split; [reflexivity|cbn; lia]|reflexivity].
+  - unfold obj_sized. split; [repeat constructor|].
+    split; intros a E; vm_compute in E; injection E as <-; repeat constructor.
+Qed.
